@@ -26,6 +26,15 @@ import (
 const rtPath = "github.com/ogen-go/ogen/verifrt"
 
 func main() {
+	// -syncshim=<rel file>[,<rel file>]: additionally route "sync" and errgroup imports of these
+	// files to the scheduler shim (verifsched), so that pool / errgroup operations become scheduling points
+	shim := map[string]bool{}
+	if len(os.Args) > 1 && strings.HasPrefix(os.Args[1], "-syncshim=") {
+		for _, f := range strings.Split(strings.TrimPrefix(os.Args[1], "-syncshim="), ",") {
+			shim[f] = true
+		}
+		os.Args = append(os.Args[:1], os.Args[2:]...)
+	}
 	repo, outDir := os.Args[1], os.Args[2]
 	home := os.Getenv("VERIF_HOME")
 	if home == "" {
@@ -122,10 +131,33 @@ func main() {
 				}
 				return true
 			}, nil)
-			if !changed {
+			relFile, _ := filepath.Rel(repo, orig)
+			shimmed := false
+			if shim[relFile] {
+				for _, imp := range f.Imports {
+					switch imp.Path.Value {
+					case `"sync"`:
+						imp.Path.Value = `"verifsched"`
+						imp.Name = ast.NewIdent("sync")
+						shimmed = true
+					case `"golang.org/x/sync/errgroup"`:
+						imp.Path.Value = `"verifsched"`
+						imp.Name = ast.NewIdent("errgroup")
+						shimmed = true
+					}
+				}
+				if !shimmed {
+					fmt.Fprintf(os.Stderr, "mapseam: %s imports neither sync nor errgroup: the scheduler shim cannot be applied\n", relFile)
+					os.Exit(1)
+				}
+				delete(shim, relFile)
+			}
+			if !changed && !shimmed {
 				continue
 			}
-			astutil.AddNamedImport(p.Fset, f, "verifrt", rtPath)
+			if changed {
+				astutil.AddNamedImport(p.Fset, f, "verifrt", rtPath)
+			}
 			if !astutil.UsesImport(f, "golang.org/x/exp/maps") {
 				astutil.DeleteImport(p.Fset, f, "golang.org/x/exp/maps")
 			}
@@ -140,6 +172,10 @@ func main() {
 			}
 			overlay[orig] = dst
 		}
+	}
+	if len(shim) > 0 {
+		fmt.Fprintf(os.Stderr, "mapseam: files to shim not found: %v\n", shim)
+		os.Exit(1)
 	}
 	sort.Strings(sites)
 	data, _ := json.MarshalIndent(map[string]any{"Replace": overlay}, "", " ")
